@@ -266,11 +266,11 @@ def check_solve(lines, impl, stats):
         r = Rd(toks[1:]); kind = r.nx(); tol = r.q(); r.nx()
         b = read_body(r)
         parts = i.split(" | ")
-        if len(parts) != 6:
+        if len(parts) != 8:
             bad.append((l, "solver did not return: " + i[:200])); continue
         base = parts[0]
         stats["solve_kind%d" % kind] = stats.get("solve_kind%d" % kind, 0) + 1
-        for f, p in zip((2, 0.25, 1024), parts[1:4]):
+        for f, p in zip((2, 0.25, 1024, "2^-20", "2^-24"), parts[1:4] + parts[6:8]):
             if p != base:
                 x1, xk = floats(base), floats(p)
                 j = next((j for j in range(len(x1)) if base.split()[j] != p.split()[j]), 0)
